@@ -31,9 +31,19 @@ def write_cfg(name, text):
 
 def model_check(res, tier):
     total, packets, early, maxout = (5, "{1, 2, 3}", 2, 8) if tier == "quick" else (7, "{1, 2, 3, 5}", 2, 11)
-    cfg = "SPECIFICATION Spec\nCONSTANTS\n  Total = %d\n  Packets = %s\n  MaxEarly = %d\n  MaxOut = %d\n%s\nCHECK_DEADLOCK FALSE\n"
+    cfg = "SPECIFICATION Spec\nCONSTANTS\n  Total = %d\n  Packets = %s\n  MaxEarly = %d\n  MaxOut = %d\n  MaxSeeks = 0\n%s\nCHECK_DEADLOCK FALSE\n"
     st = tlc_check("Streaming.tla", write_cfg("Streaming.cfg", cfg % (total, packets, early, maxout,
                    "INVARIANTS Faithful BeliefExact TransportIsReference Progress")), workers=8, timeout=3000, tag="c09mc")
+    # the same with seek_to commands read by the decoder thread at arbitrary moments (beyond C09's statement, which has no
+    # seeks: it keeps the model of the decoder thread whole - every pushed frame is still the one its transport index names)
+    cfg2 = cfg.replace("MaxSeeks = 0", "MaxSeeks = 2")
+    t2, p2, e2, o2 = (4, "{1, 2}", 1, 6) if tier == "quick" else (5, "{1, 2, 3}", 2, 8)
+    st2 = tlc_check("Streaming.tla", write_cfg("Streaming_seek.cfg", cfg2 % (t2, p2, e2, o2,
+                    "INVARIANTS Faithful BeliefExact TransportIsReference SeekLands Progress")), workers=8, timeout=3000, tag="c09mc")
+    if st2["violated"]:
+        res.drift.append({"model": "Streaming+seek", "violated": st2["violated"]})
+    res.add_mc("Streaming with 2 seeks total=%d packets=%s early<=%d out<=%d" % (t2, p2, e2, o2), st2)
+    tlc_check("Streaming.tla", write_cfg("Streaming_W_Seek.cfg", cfg2 % (4, "{1, 2}", 1, 5, "INVARIANT W_Seek")), workers=4, timeout=600, expect_violation="W_Seek", tag="c09w")
     if st["violated"]:
         res.drift.append({"model": "Streaming", "violated": st["violated"]})
     res.add_mc("Streaming total=%d packets=%s early<=%d out<=%d" % (total, packets, early, maxout), st)
